@@ -1,4 +1,16 @@
 import BqVerif.Proofs.GraphBasic
+/-!
+`PermutationMatrix.from_qudit_location` / `gen_swap_unitary` (bqskit/qis/permutation.py).
+
+The swap loop is a selection sort of `current_perm = location ++ (remaining qudits, increasing)`.
+Invariant `LoopInv` after `k` iterations: the list has length `n`, contains every qudit, positions
+`< k` hold their own index, and for every digit assignment `f` the swaps emitted so far (last one
+applied first, as `apply_left` does) turn `current_perm.map f` into `perm0.map f`.
+After `n` iterations `current_perm = range n` (`swapLoop_final`), so the composed swaps send the digit
+list `ds` to `perm0.map ds[·]` (`permFromLocation_eq_spec`).  `permSpec` is a bijection of `[0, r^n)`
+(`permSpec_lt`, `permSpec_injective`) whose output digit `i` is input digit `perm0[i]`
+(`digits_permSpec`, `permSpec_digit`).  Core only, no Mathlib.
+-/
 namespace BqVerif.Graph
 
 /-! ### swapDigits -/
@@ -303,5 +315,134 @@ theorem digits_undigits (r : Nat) (ds : List Nat) (h : ∀ d ∈ ds, d < r) :
     have hr : 0 < r := by omega
     rw [Nat.mul_comm, Nat.mul_add_div hr, Nat.mul_add_mod, Nat.div_eq_of_lt h2, Nat.mod_eq_of_lt h2,
       Nat.add_zero, h1]
+
+/-! ### the specification is a bijection of `[0, r^n)` -/
+theorem permSpec_eq (n r : Nat) (loc : List Nat) (col : Nat) :
+    permSpec n r loc col = undigits r ((perm0 n loc).map (fun q => (digits r n col).getD q 0)) := rfl
+
+/-- the digit list of the specification is a list of valid digits -/
+theorem specDigits_lt (n r : Nat) (loc : List Nat) (hlt : ∀ q ∈ loc, q < n)
+    (col : Nat) (hcol : col < r ^ n) :
+    ∀ d ∈ (perm0 n loc).map (fun q => (digits r n col).getD q 0), d < r := by
+  intro d hd
+  rw [List.mem_map] at hd
+  obtain ⟨q, hq, rfl⟩ := hd
+  have hqn : q < n := (mem_perm0 n loc hlt q).1 hq
+  have hql : q < (digits r n col).length := by rw [length_digits]; exact hqn
+  rw [List.getD_eq_getElem?_getD, List.getElem?_eq_getElem hql, Option.getD_some]
+  exact digits_lt_of_lt r n col hcol _ (List.getElem_mem hql)
+
+theorem permSpec_lt (n r : Nat) (loc : List Nat) (hnd : loc.Nodup) (hlt : ∀ q ∈ loc, q < n)
+    (col : Nat) (hcol : col < r ^ n) : permSpec n r loc col < r ^ n := by
+  rw [permSpec_eq]
+  have := undigits_lt r _ (specDigits_lt n r loc hlt col hcol)
+  rwa [List.length_map, length_perm0 n loc hnd hlt] at this
+
+/-- the digits of the specification: digit `i` of the output is digit `perm0[i]` of the input -/
+theorem digits_permSpec (n r : Nat) (loc : List Nat) (hnd : loc.Nodup) (hlt : ∀ q ∈ loc, q < n)
+    (col : Nat) (hcol : col < r ^ n) :
+    digits r n (permSpec n r loc col) =
+      (perm0 n loc).map (fun q => (digits r n col).getD q 0) := by
+  rw [permSpec_eq]
+  have := digits_undigits r _ (specDigits_lt n r loc hlt col hcol)
+  rwa [List.length_map, length_perm0 n loc hnd hlt] at this
+
+theorem permSpec_digit_perm0 (n r : Nat) (loc : List Nat) (hnd : loc.Nodup)
+    (hlt : ∀ q ∈ loc, q < n) (col : Nat) (hcol : col < r ^ n) (i : Nat) (hi : i < n) :
+    (digits r n (permSpec n r loc col)).getD i 0 =
+      (digits r n col).getD ((perm0 n loc).getD i 0) 0 := by
+  rw [digits_permSpec n r loc hnd hlt col hcol]
+  have hl : i < (perm0 n loc).length := by rw [length_perm0 n loc hnd hlt]; exact hi
+  simp [List.getD_eq_getElem?_getD, List.getElem?_eq_getElem hl]
+
+theorem permSpec_digit (n r : Nat) (loc : List Nat) (hnd : loc.Nodup) (hlt : ∀ q ∈ loc, q < n)
+    (col : Nat) (hcol : col < r ^ n) (i : Nat) (hi : i < loc.length) :
+    (digits r n (permSpec n r loc col)).getD i 0 = (digits r n col).getD (loc.getD i 0) 0 := by
+  have hin : i < n := by
+    have := length_perm0 n loc hnd hlt
+    unfold perm0 at this
+    rw [List.length_append] at this
+    omega
+  rw [permSpec_digit_perm0 n r loc hnd hlt col hcol i hin]
+  congr 1
+  unfold perm0
+  simp [List.getD_eq_getElem?_getD, List.getElem?_append_left hi]
+
+theorem permSpec_injective (n r : Nat) (loc : List Nat) (hnd : loc.Nodup) (hlt : ∀ q ∈ loc, q < n)
+    (c1 c2 : Nat) (h1 : c1 < r ^ n) (h2 : c2 < r ^ n)
+    (h : permSpec n r loc c1 = permSpec n r loc c2) : c1 = c2 := by
+  have hd : digits r n (permSpec n r loc c1) = digits r n (permSpec n r loc c2) := by rw [h]
+  rw [digits_permSpec n r loc hnd hlt c1 h1, digits_permSpec n r loc hnd hlt c2 h2,
+    List.map_inj_left] at hd
+  have he : digits r n c1 = digits r n c2 := by
+    apply List.ext_getElem
+    · simp [length_digits]
+    · intro i hi1 hi2
+      rw [length_digits] at hi1
+      have := hd i ((mem_perm0 n loc hlt i).2 hi1)
+      simpa [List.getD_eq_getElem?_getD, List.getElem?_eq_getElem hi2,
+        List.getElem?_eq_getElem (show i < (digits r n c1).length by rw [length_digits]; exact hi1)]
+        using this
+  rw [← undigits_digits r n c1 h1, ← undigits_digits r n c2 h2, he]
+
+/-! ### gen_swap_unitary -/
+theorem genSwapRow_eq (r col : Nat) (hcol : col < r * r) :
+    genSwapRow r col = undigits r (swapDigits (digits r 2 col) 0 1) := by
+  have hr : 0 < r := by
+    rcases Nat.eq_zero_or_pos r with h | h
+    · subst h; simp at hcol
+    · exact h
+  have hdiv : col / r < r := by rw [Nat.div_lt_iff_lt_mul hr]; exact hcol
+  simp [genSwapRow, digits, swapDigits, undigits, List.range_succ, Nat.mod_eq_of_lt hdiv]
+
+/-! ### consequences for the loop itself -/
+theorem permFromLocation_lt (n r : Nat) (loc : List Nat) (hnd : loc.Nodup) (hlt : ∀ q ∈ loc, q < n)
+    (col : Nat) (hcol : col < r ^ n) : permFromLocation n r loc col < r ^ n := by
+  rw [permFromLocation_eq_spec n r loc hnd hlt]; exact permSpec_lt n r loc hnd hlt col hcol
+
+theorem permFromLocation_injective (n r : Nat) (loc : List Nat) (hnd : loc.Nodup)
+    (hlt : ∀ q ∈ loc, q < n) (c1 c2 : Nat) (h1 : c1 < r ^ n) (h2 : c2 < r ^ n)
+    (h : permFromLocation n r loc c1 = permFromLocation n r loc c2) : c1 = c2 := by
+  rw [permFromLocation_eq_spec n r loc hnd hlt, permFromLocation_eq_spec n r loc hnd hlt] at h
+  exact permSpec_injective n r loc hnd hlt c1 c2 h1 h2 h
+
+/-- qudit `location[i]` of the input ends up at position `i` of the output -/
+theorem permFromLocation_digit (n r : Nat) (loc : List Nat) (hnd : loc.Nodup)
+    (hlt : ∀ q ∈ loc, q < n) (col : Nat) (hcol : col < r ^ n) (i : Nat) (hi : i < loc.length) :
+    (digits r n (permFromLocation n r loc col)).getD i 0 =
+      (digits r n col).getD (loc.getD i 0) 0 := by
+  rw [permFromLocation_eq_spec n r loc hnd hlt]; exact permSpec_digit n r loc hnd hlt col hcol i hi
+
+/-! ### non-vacuity and sanity checks
+The tables are the ones printed by the Python code
+(`[argmax |P[:, c]| for c in range(r^n)]` of `PermutationMatrix.from_qudit_location(n, r, loc)`). -/
+example : permFromLocation 3 2 [1, 2, 0] 5 = permSpec 3 2 [1, 2, 0] 5 :=
+  permFromLocation_eq_spec 3 2 [1, 2, 0] (by decide) (by decide) 5
+example : permFromLocation 3 2 [1, 2, 0] 5 = 3 := by decide
+example : (swapLoop 3 [1, 2, 0]).1 = [(0, 2), (1, 2)] := by decide
+example : (List.range 8).map (permFromLocation 3 2 [1, 2, 0]) = [0, 2, 4, 6, 1, 3, 5, 7] := by decide
+example : (List.range 8).map (permSpec 3 2 [1, 2, 0]) = [0, 2, 4, 6, 1, 3, 5, 7] := by decide
+example : (List.range 27).map (permFromLocation 3 3 [2]) =
+    [0, 9, 18, 1, 10, 19, 2, 11, 20, 3, 12, 21, 4, 13, 22, 5, 14, 23, 6, 15, 24, 7, 16, 25, 8, 17, 26] := by
+  decide
+example : permSpec 3 2 [1, 2, 0] 5 < 2 ^ 3 :=
+  permSpec_lt 3 2 [1, 2, 0] (by decide) (by decide) 5 (by decide)
+example : (5 : Nat) = 5 :=
+  permSpec_injective 3 2 [1, 2, 0] (by decide) (by decide) 5 5 (by decide) (by decide) rfl
+example : (digits 2 3 (permSpec 3 2 [1, 2, 0] 4)).getD 2 0 = (digits 2 3 4).getD 0 0 :=
+  permSpec_digit 3 2 [1, 2, 0] (by decide) (by decide) 4 (by decide) 2 (by decide)
+example : digits 2 3 4 = [1, 0, 0] ∧ digits 2 3 (permSpec 3 2 [1, 2, 0] 4) = [0, 0, 1] := by decide
+example : (swapLoop 3 [1, 2, 0]).2 = List.range 3 :=
+  swapLoop_final 3 [1, 2, 0] (by decide) (by decide)
+example : (swapLoop 4 [2, 0]) = ([(0, 1), (1, 2)], [0, 1, 2, 3]) := by decide
+example : genSwapRow 3 5 = undigits 3 (swapDigits (digits 3 2 5) 0 1) :=
+  genSwapRow_eq 3 5 (by decide)
+example : (List.range 9).map (genSwapRow 3) = [0, 3, 6, 1, 4, 7, 2, 5, 8] := by decide
+example : undigits 3 (digits 3 4 77) = 77 := undigits_digits 3 4 77 (by decide)
+example : digits 3 4 77 = [2, 2, 1, 2] := by decide
+/-- the guards matter: with a repeated qudit the final list is not the identity, and an
+out-of-range digit position would make `swapDigits` lose a digit -/
+example : (swapLoop 2 [0, 0]).2 ≠ List.range 2 := by decide
+example : swapDigits [1, 2] 0 5 = [0, 2] := by decide
 
 end BqVerif.Graph
